@@ -101,10 +101,15 @@ def gen_scenario(rng, http=False, thorough=False, shared=False):
             # operations that reach objects shared by all locations of the engine: the cron service (scheduled rules) and the
             # storage's table of locations (DeleteLocation); each client still only touches its own location
             extra = []
+            # (rule ids carry the location's number: the built-in cron keys its jobs by id alone, finding C15-shared-id)
             for k in range(rng.randint(4, 10)):
                 z = rng.random()
-                if z < 0.45: extra.append({"op": "addRule", "id": "s%d" % rng.randint(0, 2), "rule": {"schedule": rng.choice(["0 0 1 1 *", "+10h"]), "action": SCHED}})
-                elif z < 0.75: extra.append({"op": "remRule", "id": "s%d" % rng.randint(0, 2)})
+                if z < 0.45: extra.append({"op": "addRule", "id": "s%d-%d" % (rng.randint(0, 2), i), "rule": {"schedule": rng.choice(["0 0 1 1 *", "+10h"]), "action": SCHED}})
+                elif z < 0.65: extra.append({"op": "remRule", "id": "s%d-%d" % (rng.randint(0, 2), i)})
+                elif z < 0.75:
+                    # an id that names ANOTHER location's scheduled rule, used here for a plain fact: removing the fact is this location's business only
+                    oid = "s%d-%d" % (rng.randint(0, 2), rng.randrange(n))
+                    extra.append({"op": "addFact", "id": oid, "fact": {"k": "plain"}}); extra.append({"op": "remFact", "id": oid})
                 elif z < 0.9: extra.append({"op": "deleteLocation"})
                 else: extra.append({"op": "addFact", "id": "g%d" % k, "fact": {"k": k}})
             for e_ in extra:
@@ -113,6 +118,8 @@ def gen_scenario(rng, http=False, thorough=False, shared=False):
             ops = [o for o in ops if o["op"] in HTTP_OPS] or [{"op": "size"}]
             for _ in range(rng.choice([0, 0, 1, 3])):
                 ops.insert(rng.randint(0, len(ops)), {"op": "garbage"})      # requests the service cannot read (answered 400)
+        # (the scheduled rule of the generic request stream gets a per-location id, for the same reason)
+        ops = json.loads(json.dumps(ops).replace('"sr"', '"sr-%d"' % i))
         name = "L%d" % i
         ops = ops + [dict(p) for p in gen_c17.probes(name) if (p["op"] in HTTP_OPS or not http)]
         for o in ops:
@@ -199,9 +206,10 @@ def main():
             solo_ref.append((si, ci))
     cimpl = run_cases(drv, conc_cases, jobs=6)
     simpl = run_cases(drv, solo_cases)
-    solo = {}
+    solo, solo_reg = {}, {}
     for (si, ci), o in zip(solo_ref, simpl):
         solo[(si, ci)] = ((o or {}).get("clients") or [None])[0]
+        solo_reg[(si, ci)] = (o or {}).get("registry") or []
     # the model's prediction of every solo run (System mode)
     mcases, mref = [], []
     for (si, ci), sc in zip(solo_ref, solo_cases):
@@ -238,6 +246,12 @@ def main():
         if s["http"] and co.get("pending") not in (None, 0):
             report(ck, stats, "HTTP service: %s request(s) still counted as pending after every request of %d clients was answered (a pending limit would now refuse other clients)" % (
                 co.get("pending"), len(s["clients"])), {"case": cc, "pending": co.get("pending")}, "pending")
+        if s.get("nomodel") and isinstance(co.get("registry"), list):
+            # shared cron: the jobs held at the end are those the clients' solo runs end with (each location's scheduled rules), no more, no fewer
+            want = sorted(j for ci in range(len(s["clients"])) for j in solo_reg.get((si, ci), []))
+            if sorted(co["registry"]) != want:
+                report(ck, stats, "the shared cron holds jobs %s after %d clients worked on their own locations; each alone leaves %s" % (sorted(co["registry"]), len(s["clients"]), want),
+                       {"case": cc, "registry": co["registry"], "solo_registries": want}, "registry")
         lazy_hit = (not s["inject"]) and co.get("storages", 0) > 1
         if lazy_hit:
             stats["lazy_storage_two_instances"] += 1
